@@ -9,6 +9,7 @@
 #include <unistd.h>
 #include <fcntl.h>
 #include <csignal>
+#include <cerrno>
 #include <ctime>
 #include <unordered_set>
 #include <fstream>
@@ -83,7 +84,9 @@ bool exec_case(const uint8_t *d, size_t n, FailInfo &fi) {
       uint32_t h = 2166136261u; for (size_t i = 0; i < n; i++) h = (h ^ d[i]) * 16777619u;
       vf_malloc_fill = fills[(h >> 7) & 7];
       g_via_members = (h >> 12) & 1;                       // container calls through the object's member pointers (via_members.hpp)
-      if (g_via_members) c.tag("calls_via_member_pointers"); }
+      if (g_via_members) c.tag("calls_via_member_pointers");
+      static const int pois[] = {0, 0, ERANGE, ENOMEM, ENOENT, EINVAL, EINTR, EAGAIN};
+      g_errno_poison = pois[(h >> 13) & 7]; errno = g_errno_poison; }
     try {
         dirty_stack();
         sig = guarded([&] { run_case(s, c); }, g_cpu);
